@@ -145,7 +145,7 @@ P['C10']={
  "note":"both stores at store level; the memory store's wiring through PreRun is C18"}
 I="internal."
 P['C17']={
- "quick_timeout_s":100,
+ "quick_timeout_s":150,
  "functions":[I+"LocalConfigFile.Validate",I+"mergeAndValidateOIDCConfigs",I+"applyOIDCDefaults",I+"validateURLs",I+"validateOIDCConfigURLs",I+"validateURL",I+"hasRootPath",I+"isRootPath"],
  "sweep":["internal.init"],
  "panics":True,
